@@ -1,39 +1,91 @@
 #!/usr/bin/env python3
-"""Re-run every registered quick check against every kept seeded change (applied to /repo, undone straight afterwards)."""
-import json, os, subprocess, sys
+"""Re-run every quick check against every kept seeded change.
+
+default:    each change is applied to its own scratch copy of /repo's HEAD (under /tmp/seedrun, removed afterwards) and the
+            twenty checks run on that copy (`tpsa.cli.run_check(..., repo=<copy>)`), 14 changes in parallel;
+--inplace:  the change is applied to /repo itself (git apply), the checks run there, and it is undone straight afterwards
+            (git checkout -- .) - exactly what the registered commands see; sequential.
+usage: seed_rerun.py [--inplace] [substring of seed id ...]"""
+import json, os, shutil, subprocess, sys
+from concurrent.futures import ProcessPoolExecutor
+
 sys.path.insert(0, os.path.dirname(os.path.abspath(__file__)))
 from seed_eval import run_checks, sh, VERIF
 
+sys.path.insert(0, VERIF)
+PROPS = [f"C{i:02d}" for i in range(1, 21)]
+
+
+def checks_on(tree: str):
+    from tpsa.cli import run_check
+    out = {}
+    for p in PROPS:
+        reps = []
+        c = run_check(p, "quick", tree, 0, write=False, rep_out=reps)
+        r = reps[0]
+        out[p] = {"code": c, "viol": [o.rule + " " + o.func + " :: " + o.what[:90] + " :: " + o.construct[:70] for o in r.violations()],
+                  "inc": [o.rule + " " + o.what[:80] for o in r.inconclusive()] + r.notes}
+    return out
+
+
+def one(sid: str):
+    d = os.path.join(VERIF, "seeded", sid)
+    t = os.path.join("/tmp/seedrun", sid)
+    shutil.rmtree(t, ignore_errors=True)
+    os.makedirs(t)
+    try:
+        subprocess.run(f"git -C /repo archive HEAD src | tar -x -C {t}", shell=True, check=True)
+        subprocess.run(["git", "init", "-q"], cwd=t, check=True)
+        r = subprocess.run(["git", "apply", os.path.join(d, "patch.diff")], cwd=t, capture_output=True, text=True)
+        if r.returncode != 0:
+            return sid, None, r.stderr[:200]
+        return sid, checks_on(t), ""
+    finally:
+        shutil.rmtree(t, ignore_errors=True)
+
+
+def record(sid: str, res):
+    mp = os.path.join(VERIF, "seeded", sid, "meta.json")
+    meta = json.load(open(mp))
+    caught = {p: r["viol"] for p, r in res.items() if r["code"] == 1}
+    meta["caught_by"] = sorted(caught)
+    meta["rules"] = {p: v[:4] for p, v in caught.items()}
+    meta["inconclusive"] = {p: r["inc"][:3] for p, r in res.items() if r["code"] == 2}
+    json.dump(meta, open(mp, "w"), indent=1)
+    own = meta["property"] in caught
+    return (sid, meta["property"], "CAUGHT" if own else ("caught-elsewhere" if caught else "MISSED"), ",".join(sorted(caught)), ",".join(sorted(meta["inconclusive"])))
+
+
 def main():
-    only = sys.argv[1:]
+    args = sys.argv[1:]
+    inplace = "--inplace" in args
+    only = [a for a in args if not a.startswith("--")]
     root = os.path.join(VERIF, "seeded")
+    sids = [s for s in sorted(os.listdir(root)) if os.path.exists(os.path.join(root, s, "meta.json")) and (not only or any(o in s for o in only))]
     rows = []
-    for sid in sorted(os.listdir(root)):
-        if only and not any(o in sid for o in only):
-            continue
-        d = os.path.join(root, sid)
-        mp = os.path.join(d, "meta.json")
-        if not os.path.exists(mp):
-            continue
-        meta = json.load(open(mp))
-        _, st = sh("git -C /repo status --porcelain")
-        assert not st.strip(), "/repo not clean"
-        c, o = sh(f"git -C /repo apply {d}/patch.diff")
-        if c != 0:
-            print(sid, "PATCH DOES NOT APPLY", o[:200]); continue
-        try:
-            res = run_checks()
-        finally:
-            sh("git -C /repo checkout -- .")
-        caught = {p: r["viol"] for p, r in res.items() if r["code"] == 1}
-        meta["caught_by"] = sorted(caught)
-        meta["rules"] = {p: v[:4] for p, v in caught.items()}
-        meta["inconclusive"] = {p: r["inc"][:3] for p, r in res.items() if r["code"] == 2}
-        json.dump(meta, open(mp, "w"), indent=1)
-        own = meta["property"] in caught
-        rows.append((sid, meta["property"], "CAUGHT" if own else ("caught-elsewhere" if caught else "MISSED"), ",".join(sorted(caught)), ",".join(sorted(meta["inconclusive"]))))
+    if inplace:
+        for sid in sids:
+            d = os.path.join(root, sid)
+            _, st = sh("git -C /repo status --porcelain")
+            assert not st.strip(), "/repo not clean"
+            c, o = sh(f"git -C /repo apply {d}/patch.diff")
+            if c != 0:
+                print(sid, "PATCH DOES NOT APPLY", o[:200]); continue
+            try:
+                res = run_checks()
+            finally:
+                sh("git -C /repo checkout -- .")
+            rows.append(record(sid, res))
+    else:
+        with ProcessPoolExecutor(max_workers=14) as ex:
+            for sid, res, err in ex.map(one, sids):
+                if res is None:
+                    print(sid, "PATCH DOES NOT APPLY", err); continue
+                rows.append(record(sid, res))
+        shutil.rmtree("/tmp/seedrun", ignore_errors=True)
     for r in rows:
         print("%-45s %-4s %-16s by=%s inconclusive=%s" % r)
+
 
 if __name__ == "__main__":
     main()
